@@ -4,6 +4,8 @@ import GrinVerif.Lemmas.SegExtra
 import GrinVerif.Lemmas.SegComplete
 import GrinVerif.Lemmas.SegPeaks
 import GrinVerif.Lemmas.SegLeafless
+import GrinVerif.Lemmas.SegAncestor
+import GrinVerif.Lemmas.SegDsg
 /-! # C16 — state segments are sound; state sync never finalises other roots
 
 Property theorems only (helper lemmas live in `Lemmas/Seg*.lean`; model `Model/Seg.lean`).
@@ -163,6 +165,177 @@ example :
   have := (pruned_full_segment_requires_bitmap hsum s 11 49 0 0 false (Or.inl rfl) v).2.2.1
   rw [e3] at this
   exact this
+
+/-! ## A pruned-subtree hash covers spent leaves only -/
+
+/-- **pruned_parent_covers_only_spent.**  Take a segment that has no root of its own under the
+bitmap `b` (`root` returns `Ok(None)`: the completely pruned / leafless route) and that
+`validate_with` accepts.  Then `first_unpruned_parent` returned a hash `h` the segment carries at
+some position `a`, and either `a` is the segment's own last position, or `a` is an ancestor on the
+family branch of that position and the bitmap has **no bit set in the whole leaf range of `a`**
+(`n_leaves(1 + leftmost(a)) - 1 ..  min(n_leaves(1 + rightmost(a)), n_leaves(mmr_size))`, both
+ends of the subtree included; indices as the `as u32` casts of the code see them).  So the hash of
+a pruned subtree can never stand in for a leaf the bitmap marks unspent. -/
+theorem pruned_parent_covers_only_spent (hf : HashFn α H) [DecidableEq H] (s : Segment α H) (size : Nat)
+    (b : Nat → Bool) (mmrRoot : H) (hlp : Nat) (other : H) (left : Bool)
+    (hroot : s.root hf size (some b) = .ok none)
+    (hacc : s.validateWith hf size (some b) mmrRoot hlp other left = .ok ()) :
+    ∃ h a, s.firstUnprunedParent hf size (some b) = .ok (h, 1 + a) ∧ s.getHash a = .ok h ∧
+      (a = (s.id.posRange size).2 ∨
+        ((∃ x ∈ familyBranch (s.id.posRange size).2 size, x.1 = a) ∧
+          ∀ i, (subtreeLeafRange a (nLeaves size)).1 % 2 ^ 32 ≤ i →
+            i < (subtreeLeafRange a (nLeaves size)).2 % 2 ^ 32 → b i = false)) := by
+  obtain ⟨⟨h, u⟩, hx⟩ := fup_ok_of_validateWith hf s size (some b) mmrRoot hlp other left hacc
+  have hl : fupLoop s b (nLeaves size) (s.id.posRange size).2
+      (familyBranch (s.id.posRange size).2 size) = .ok (h, u) := by
+    unfold Segment.firstUnprunedParent at hx
+    rw [hroot] at hx
+    exact hx
+  obtain ⟨hg, hcases⟩ := fupLoop_ok s b (nLeaves size) _ _ h u hl
+  rcases hcases with he | ⟨y, hy, hu, hcard⟩
+  · refine ⟨h, (s.id.posRange size).2, by rw [hx, he], ?_, Or.inl rfl⟩
+    rw [he] at hg; simpa using hg
+  · refine ⟨h, y.1, by rw [hx, hu], ?_, Or.inr ⟨⟨y, hy, rfl⟩, rangeCard_zero b _ _ hcard⟩⟩
+    rw [hu] at hg; simpa using hg
+
+/-- the same for `validate` (rangeproof segments) -/
+theorem pruned_parent_covers_only_spent_validate (hf : HashFn α H) [DecidableEq H] (s : Segment α H)
+    (size : Nat) (b : Nat → Bool) (mmrRoot : H)
+    (hroot : s.root hf size (some b) = .ok none)
+    (hacc : s.validate hf size (some b) mmrRoot = .ok ()) :
+    ∃ h a, s.firstUnprunedParent hf size (some b) = .ok (h, 1 + a) ∧ s.getHash a = .ok h ∧
+      (a = (s.id.posRange size).2 ∨
+        ((∃ x ∈ familyBranch (s.id.posRange size).2 size, x.1 = a) ∧
+          ∀ i, (subtreeLeafRange a (nLeaves size)).1 % 2 ^ 32 ≤ i →
+            i < (subtreeLeafRange a (nLeaves size)).2 % 2 ^ 32 → b i = false)) := by
+  obtain ⟨⟨h, u⟩, hx⟩ := fup_ok_of_validate hf s size (some b) mmrRoot hacc
+  have hl : fupLoop s b (nLeaves size) (s.id.posRange size).2
+      (familyBranch (s.id.posRange size).2 size) = .ok (h, u) := by
+    unfold Segment.firstUnprunedParent at hx
+    rw [hroot] at hx
+    exact hx
+  obtain ⟨hg, hcases⟩ := fupLoop_ok s b (nLeaves size) _ _ h u hl
+  rcases hcases with he | ⟨y, hy, hu, hcard⟩
+  · refine ⟨h, (s.id.posRange size).2, by rw [hx, he], ?_, Or.inl rfl⟩
+    rw [he] at hg; simpa using hg
+  · refine ⟨h, y.1, by rw [hx, hu], ?_, Or.inr ⟨⟨y, hy, rfl⟩, rangeCard_zero b _ _ hcard⟩⟩
+    rw [hu] at hg; simpa using hg
+
+-- non-vacuity of the hypotheses (a leafless segment with `root = Ok(None)` that `validate_with`
+-- accepts through an ancestor 1..6 levels up, peaks included): 12 248 such segments are accepted by
+-- the real code and by the model in every `ancestor` run of the harness (bitmap with no bit under the
+-- ancestor), and every one of the 61 000 variants with one bit set under the ancestor is refused.
+
+/-! ## The desegmenter's cache never blocks the next required segment
+
+Model: `Seg.Dsg` (per-tree bookkeeping of `chain/src/txhashset/desegmenter.rs`).  `Dsg.At t (some k)`:
+the local MMR of the tree ends where segment `k` of the asked height starts (or at the genesis
+leaf, `k = 0`); `Dsg.OwnCache t`: every cached segment has the asked height — any indices, in any
+order: segments far ahead, duplicates, late duplicates of segments applied long ago.  Since the
+repair 11f03601e `add_*_segment` refuses a segment of any other height (`Tree.receive`), so
+`OwnCache` is an invariant of every arrival sequence, not a hypothesis about the peers. -/
+
+/-- **apply_progress.**  If the next required segment is cached, `apply_next_segments` applies it —
+whatever else is cached, duplicates of applied segments included: the tree asks for exactly
+segment `k`, and after the call the local MMR has strictly more leaves, at least up to the end of
+segment `k`. -/
+theorem apply_progress (t : Dsg.Tree) (k : Nat) (ha : Dsg.At t (some k)) (hown : Dsg.OwnCache t)
+    (hc : ∃ c ∈ t.cache, c.idx = k) :
+    t.next = some k ∧ t.leaves < (t.step .apply).leaves ∧
+      min ((k + 1) * 2 ^ t.h) t.total ≤ (t.step .apply).leaves :=
+  ⟨Dsg.next_of_at t k ha, (Dsg.step_apply_progress t k ha hown hc).1,
+    (Dsg.step_apply_progress t k ha hown hc).2⟩
+
+/-- **cache_never_blocks.**  By induction over arrival sequences: start from any tree in a regular
+state and let *any* sequence of events happen — validated segments of **any height and index**
+arriving in any order, any number of times, before or after they were applied (those of another
+height are refused, `Tree.receive`), interleaved with any number of `apply_next_segments` calls.
+The tree stays in a regular state, never loses leaves, and is then either complete or asks for a
+segment `k` such that delivering `k` and applying makes progress. -/
+theorem cache_never_blocks (t : Dsg.Tree) (evs : List Dsg.Ev) (hi : Dsg.Inv t) :
+    Dsg.Inv (t.run evs) ∧ t.leaves ≤ (t.run evs).leaves ∧
+      ((t.run evs).leaves = (t.run evs).total ∨
+        ∃ k, (t.run evs).next = some k ∧
+          (t.run evs).leaves < (((t.run evs).step (.add ⟨(t.run evs).h, k⟩)).step .apply).leaves) := by
+  obtain ⟨i, l, _, _, _⟩ := Dsg.run_inv evs t hi
+  refine ⟨i, l, ?_⟩
+  by_cases hd : (t.run evs).leaves = (t.run evs).total
+  · exact Or.inl hd
+  · right
+    obtain ⟨_, _, _, _, hprog⟩ := Dsg.deliverNext_spec (t.run evs) i
+    have := hprog hd
+    unfold Dsg.deliverNext at this
+    cases hn : (t.run evs).next with
+    | none => rw [hn] at this; exact absurd this (Nat.lt_irrefl _)
+    | some k =>
+      rw [hn] at this
+      refine ⟨k, rfl, ?_⟩
+      have e : (t.run evs).step (.add ⟨(t.run evs).h, k⟩) = (t.run evs).add ⟨(t.run evs).h, k⟩ := by
+        simp [Dsg.Tree.step, Dsg.Tree.receive]
+      rw [e]; exact this
+
+/-- … hence an honest peer that answers every request completes the tree — the bitmap tree for
+every chunk count ≥ 1 (one chunk included), the other trees for every leaf count — in at most
+`total − leaves` rounds of (deliver what is asked, apply), whatever else arrived before. -/
+theorem honest_peer_completes (t : Dsg.Tree) (evs : List Dsg.Ev) (hi : Dsg.Inv t) (n : Nat)
+    (hn : t.total - t.leaves ≤ n) :
+    (Dsg.rounds n (t.run evs)).leaves = t.total := by
+  obtain ⟨i, l, _, ht, _⟩ := Dsg.run_inv evs t hi
+  rw [← ht]
+  exact Dsg.rounds_complete n (t.run evs) i (by rw [ht]; omega)
+
+/-- A valid segment of a height the desegmenter did not ask for is refused and changes nothing
+(`Error::InvalidSegmentHeight`, repair 11f03601e; regression probe
+`desegmenter-foreign-height-segment-applied`). -/
+theorem foreign_height_segment_refused (t : Dsg.Tree) (id : Ident) (valid : Bool)
+    (h : id.height ≠ t.h) : t.receive id valid = (t, false) :=
+  Dsg.receive_foreign t id valid h
+
+/-- the fresh bitmap tree is in a regular state for every chunk count ≥ 1 and every asked height:
+the hypothesis `Inv` of the theorems above holds at the start of every sync -/
+theorem fresh_bitmap_tree_regular (h chunks : Nat) (hc : 1 ≤ chunks) :
+    Dsg.Inv ⟨.bitmap, h, chunks, 0, []⟩ :=
+  ⟨fun c hc' => (by cases hc'), ⟨some 0, Dsg.At.boundary 0 (by simp) (by simp; omega) (Or.inl rfl)⟩⟩
+
+/-- … and so are the output / rangeproof / kernel trees of a fresh chain (genesis leaf) for every
+asked height ≥ 1 and more than one leaf at the archive header -/
+theorem fresh_main_tree_regular (fl : Dsg.Flavor) (hfl : fl ≠ .bitmap) (h total : Nat) (hh : 1 ≤ h)
+    (ht : 1 < total) : Dsg.Inv ⟨fl, h, total, 1, []⟩ :=
+  ⟨fun c hc' => (by cases hc'), ⟨some 0, Dsg.At.genesis hfl rfl hh ht⟩⟩
+
+/-- Non-vacuity: the kernel tree of a fresh chain (genesis leaf, 142 kernels, asked height 1 → 71
+segments) is in a regular state; after late duplicates of segments 0 and 1, an early segment 40,
+a valid segment of another height with the required idx (refused) and two applies it has 4 leaves
+and asks for segment 2. -/
+example :
+    let t : Dsg.Tree := ⟨.kernel, 1, 142, 1, []⟩
+    let evs : List Dsg.Ev := [.add ⟨1, 0⟩, .add ⟨1, 40⟩, .add ⟨3, 0⟩, .add ⟨1, 1⟩, .apply, .add ⟨1, 0⟩,
+      .add ⟨2, 2⟩, .add ⟨1, 1⟩, .apply]
+    Dsg.Inv t ∧ (t.run evs).leaves = 4 ∧ (t.run evs).next = some 2 ∧
+      (t.run evs).cache = [⟨1, 40⟩, ⟨1, 0⟩, ⟨1, 1⟩] :=
+  ⟨fresh_main_tree_regular .kernel (by decide) 1 142 (by decide) (by decide), by decide, by decide, by decide⟩
+
+/-- **single_chunk_requested** (repair d6b49984d; before it the request list was empty and the sync
+stalled — regression probe `desegmenter-bitmap-segment-never-requested`).  With a one-chunk bitmap
+(≤ 1024 outputs at the archive header) and the shipped heights (9, 11, 11, 11) the desegmenter asks
+for exactly the bitmap segment (9, 0); once it arrived and two `apply_next_segments` calls ran, the
+bitmap is final and the three main trees are asked for.  Kernel-evaluated on the model; the request
+lists are compared with the real ones after every step by the `assembly` run.  (Every chunk count:
+`honest_peer_completes` with `fresh_bitmap_tree_regular`.) -/
+theorem single_chunk_requested :
+    let s := Dsg.State.new 9 11 11 11 1 193 142
+    s.bitmap.next = some 0 ∧ s.want 15 = [(0, ⟨9, 0⟩)] ∧ s.apply.want 15 = [(0, ⟨9, 0⟩)] ∧
+      (let s1 := { s with bitmap := (s.bitmap.receive ⟨9, 0⟩ true).1 }
+       s1.want 15 = [] ∧ s1.apply.bitmap.leaves = 1 ∧ s1.apply.apply.bitmapDone = true ∧
+         s1.apply.apply.want 15 = [(1, ⟨11, 0⟩), (2, ⟨11, 0⟩), (3, ⟨11, 0⟩)]) := by
+  decide +kernel
+
+/-- the same at the start of a sync for every chunk count 1..40 and asked heights 0..3: the first
+request is never empty and starts with bitmap segment 0 (bounded sweep, kernel-evaluated — an
+illustration of the model, not a theorem about all sizes) -/
+example : ∀ chunks ∈ List.range' 1 40, ∀ h ∈ List.range 4,
+    ((Dsg.State.new h 11 11 11 chunks 193 142).want 15).head? = some (0, ⟨h, 0⟩) := by
+  decide +kernel
 
 /-! ## Soundness: what validation reads is determined by the root -/
 
